@@ -311,7 +311,7 @@ def main():
     o = []
     o.append("(* GENERATED by translators/tr_variation.py from the allsorts sources - do not edit.\n"
              "   Constants, tag predicate and tag tables of variable-font instancing (property C12). *)")
-    o.append("From AV Require Import Base.Prelude.\n")
+    o.append("From AV Require Import Base.Prelude Model.VariationFields.\n")
     o.append("(* src/tables/variable_fonts.rs *)")
     for n, v in consts:
         o.append("Definition %s : Z := %d." % (n, v))
@@ -326,8 +326,10 @@ def main():
     o.append("Definition TAG_HEAD : Z := %d.\nDefinition TAG_GLYF : Z := %d.\nDefinition TAG_LOCA : Z := %d.\n" % (
         tags["HEAD"], tags["GLYF"], tags["LOCA"]))
     o.append("(* process_mvar: value tag -> (field written, field read, signedness of the helper) *)")
-    o.append("Inductive mvar_field : Type :=\n%s." % "\n".join("| F_%s" % f for f in fields))
-    o.append("Inductive mvar_kind : Type := KI16 | KU16.")
+    known = set(re.findall(r"\| F_(\w+)", open(os.path.join(HERE, "..", "coq", "Model", "VariationFields.v")).read()))
+    for f in fields:
+        if f not in known:
+            raise Broken("process_mvar assigns to %s, which is not a field of Model/VariationFields.v" % f)
     o.append("Definition MVAR_TABLE : list (Z * (mvar_field * mvar_field * mvar_kind)) :=\n  [%s].\n" % ";\n   ".join(
         "(%d, (F_%s, F_%s, %s)) (* %s *)" % (v, t, s, "KI16" if k == "i16" else "KU16", n.lower()) for n, v, t, s, k in rows))
     o.append("(* value tags process_mvar names but deliberately ignores *)")
